@@ -646,7 +646,13 @@ fn run_bundle<P: Payload + Clone>(ctx: &Ctx, b: &Bundle, prefix: &Option<Vec<Cal
     // the state under test is reached through `dst.clone_from(&arena)` onto a USED destination (the previous bundle's arena on
     // this worker): every comparison below then speaks about an arena that came to be that way (a hand-written clone_from
     // that forgets a link, a stamp or a free-list end shows in the property whose comparison reads it)
+    let mut via_pre_ok = false;
     if via_clone_from() && prefix.is_none() {
+        {
+            let pre = sim.proj();
+            let ll = (0..pre.count.min(b.st.count)).all(|s| !pre.live[s] || pre.links[s] == b.st.links[s]);
+            via_pre_ok = pre.count == b.st.count && live_set(&pre) == sorted(b.st.live.clone()) && ll && pre.val == b.st.val;
+        }
         if let Some(su) = (&mut sim as &mut dyn std::any::Any).downcast_mut::<Sim<u32>>() {
             let mut dst = ctx.scratch.borrow_mut().take().unwrap_or_else(indextree::Arena::new);
             dst.clone_from(&su.arena);
@@ -660,7 +666,13 @@ fn run_bundle<P: Payload + Clone>(ctx: &Ctx, b: &Bundle, prefix: &Option<Vec<Cal
     // reported (C12) at the call that left them, and must not hide what happens later on the path
     let live_links_ok = (0..base.count.min(b.st.count)).all(|s| !base.live[s] || base.links[s] == b.st.links[s]);
     let base_ok = base.count == b.st.count && live_set(&base) == sorted(b.st.live.clone()) && live_links_ok && base.val == b.st.val;
-    if !base_ok {
+    if !base_ok && via_pre_ok {
+        // the path gave the specification's state and the copy made by clone_from does not show it: "a clone compares equal to
+        // its original" (C13). The calls and observers of the bundle are still compared on the copy - every property whose
+        // comparison reads what the copy got wrong reports it (a removed node that looks live is accepted by an insert: C12, ...)
+        st.violation(keep, Finding { prop: "C13".into(), kind: "clone_from-state".into(), detail: "dst.clone_from(&arena) onto a used destination: the copy reports other live flags / links / payloads than the source".into(), case: case_json(b, prefix, None, json!(b.st), json!(base)) });
+    }
+    if !base_ok && !via_pre_ok {
         // the state reached differs from the specification's although every single step from
         // shallower states is checked elsewhere; report against the last operation of the path
         st.path_failures += 1;
